@@ -1133,7 +1133,16 @@ func c09RunHistory(c *vx.Check, hist []c09Op) {
 					after.apply(op)
 				case "ACK":
 					ackedOps = append(ackedOps, *inflight)
+					name := inflight.Name
 					acked, after, inflight = after, nil, nil
+					// a kill right after the acknowledgement: the directory is what the syscalls so far
+					// made it, the acknowledged set has just grown (catches a write that was acknowledged
+					// without reaching the file system at all)
+					if started && ok {
+						if !judge(fmt.Sprintf("acknowledgement of op %d (%s), syscall #%d", len(ackedOps)-1, name, i)) {
+							ok = false
+						}
+					}
 				}
 			}
 			continue
